@@ -111,8 +111,8 @@ fn one<S: Strategy<Value = Ev> + 'static>(e: S) -> BoxedStrategy<Vec<Ev>> {
 }
 
 fn scenario_v(rm: BoxedStrategy<Option<u16>>, ev: BoxedStrategy<Vec<Ev>>, len: std::ops::Range<usize>) -> BoxedStrategy<Scenario> {
-    (rm, vec(ev, len), id_offset(2))
-        .prop_map(|(receive_max, events, id_offset)| Scenario { receive_max, max_packet_size: None, id_offset, events: flat(events) })
+    (rm, vec(ev, len), id_offset(2), max_pkt())
+        .prop_map(|(receive_max, events, id_offset, max_packet_size)| Scenario { receive_max, max_packet_size, id_offset, events: flat(events) })
         .boxed()
 }
 
@@ -128,6 +128,13 @@ fn id_offset(heavy: u32) -> BoxedStrategy<u32> {
     .boxed()
 }
 
+/// server Maximum Packet Size: mostly absent, sometimes small enough that multi-filter
+/// subscribes/unsubscribes of the history are refused locally
+fn max_pkt() -> BoxedStrategy<Option<u32>> {
+    prop_oneof![8 => Just(None), 1 => (18u32..42).prop_map(Some), 1 => (200u32..300).prop_map(Some)].boxed()
+}
+
+#[allow(dead_code)]
 fn with_offset(s: BoxedStrategy<Scenario>, heavy: u32) -> BoxedStrategy<Scenario> {
     (s, id_offset(heavy))
         .prop_map(|(mut s, o)| {
@@ -148,8 +155,8 @@ fn target_any() -> BoxedStrategy<Target> {
 }
 
 fn scenario(rm: BoxedStrategy<Option<u16>>, ev: BoxedStrategy<Ev>, len: std::ops::Range<usize>) -> BoxedStrategy<Scenario> {
-    (rm, vec(ev, len), id_offset(2))
-        .prop_map(|(receive_max, events, id_offset)| Scenario { receive_max, max_packet_size: None, id_offset, events })
+    (rm, vec(ev, len), id_offset(2), max_pkt())
+        .prop_map(|(receive_max, events, id_offset, max_packet_size)| Scenario { receive_max, max_packet_size, id_offset, events })
         .boxed()
 }
 
@@ -631,6 +638,8 @@ impl Property for C10 {
         let ev = prop_oneof![
             8 => start(vec![(1, OpKind::Pub0), (4, OpKind::Pub1), (4, OpKind::Pub2), (1, OpKind::Sub(0)), (1, OpKind::Ping)]),
             7 => ack(deco()),
+            // a caller giving up on a publish does not change what is in flight
+            1 => sel().prop_map(|sel| Ev::DropOp { sel }),
         ]
         .boxed();
         scenario(rm_small(), ev, 1..tier.pick(60, 200))
@@ -685,6 +694,30 @@ impl Property for C10 {
         let cfg = SimCfg::default();
         let out = run(case, &cfg);
         let mut o = Outcome::ok();
+        // the same history with the operation futures polled late: after an acknowledgement
+        // only the context runs; the futures run at the next (settled) start
+        if out.failures.is_empty() {
+            let lazy = Scenario {
+                events: case
+                    .events
+                    .iter()
+                    .flat_map(|e| match e {
+                        Ev::Start { h, kind, .. } => vec![Ev::Start { h: *h, kind: *kind, settle: true }],
+                        Ev::In(x) => vec![Ev::In(x.clone()), Ev::PollCtx],
+                        other => vec![other.clone(), Ev::Settle],
+                    })
+                    .collect(),
+                ..case.clone()
+            };
+            let out2 = run(&lazy, &SimCfg { auto_settle: false, ..Default::default() });
+            if let Some(mut f) = failure_for(&out2, &["C10/"]) {
+                f.msg = format!("[operation futures polled late] {}", f.msg);
+                o.fail = Some(f);
+                o.nontrivial = true;
+                return o;
+            }
+            o.class("also-run-with-late-polled-futures");
+        }
         o.nontrivial = out.stats.quota_exhausted >= 1 && out.stats.quota_replenished_after_exhaustion >= 1;
         for f in &out.stats.freed_by {
             o.class(format!("slot-freed-by-{f}"));
@@ -693,6 +726,9 @@ impl Property for C10 {
             o.class("quota-exhausted");
         }
         o.class(format!("R-{}", case.receive_max.map(|v| v.to_string()).unwrap_or("absent".into())));
+        if out.stats.refused_for_size > 0 {
+            o.class("request-refused-for-size");
+        }
         o.fail = failure_for(&out, &["C10/"]);
         o
     }
@@ -726,8 +762,8 @@ impl Property for C14 {
     type Case = Scenario;
 
     fn strategy(tier: Tier) -> BoxedStrategy<Scenario> {
-        (rm_small(), mixed_history(tier), id_offset(0))
-            .prop_map(|(receive_max, events, id_offset)| Scenario { receive_max, max_packet_size: None, id_offset, events })
+        (rm_small(), mixed_history(tier), id_offset(0), max_pkt())
+            .prop_map(|(receive_max, events, id_offset, max_packet_size)| Scenario { receive_max, max_packet_size, id_offset, events })
             .boxed()
     }
 
@@ -745,7 +781,7 @@ impl Property for C14 {
         for k in 0..=case.events.len() {
             let mut events: Vec<Ev> = case.events[..k].to_vec();
             events.push(Ev::DropCtx);
-            let scn = Scenario { receive_max: case.receive_max, max_packet_size: None, id_offset: case.id_offset, events };
+            let scn = Scenario { receive_max: case.receive_max, max_packet_size: case.max_packet_size, id_offset: case.id_offset, events };
             let out = run(&scn, &cfg);
             if out.stats.phases_at_drop.len() >= 2 || out.stats.stream_buffered_at_drop {
                 o.nontrivial = true;
@@ -760,6 +796,32 @@ impl Property for C14 {
                 f.msg = format!("context dropped after {k} of {} events: {}", case.events.len(), f.msg);
                 o.fail = Some(f);
                 break;
+            }
+        }
+        // a user DISCONNECT that is queued (future polled once) but not processed when the
+        // context goes away; and one whose write is stuck on back-pressure
+        for (tail, blocked) in [
+            (vec![Ev::Terminate(Cause::UserDisconnect(DisconnectSpec::default())), Ev::PollOp { sel: 65535 }, Ev::DropCtx], false),
+            (vec![Ev::Terminate(Cause::UserDisconnect(DisconnectSpec::default())), Ev::PollOp { sel: 65535 }, Ev::PollCtx, Ev::DropCtx], true),
+        ] {
+            if o.fail.is_some() {
+                break;
+            }
+            let mut events = case.events.clone();
+            events.extend(tail);
+            let scn = Scenario { receive_max: case.receive_max, max_packet_size: case.max_packet_size, id_offset: case.id_offset, events };
+            let cfg2 = SimCfg {
+                auto_settle: false,
+                // nothing more is accepted by the transport in the blocked variant: the
+                // DISCONNECT is taken from the queue but cannot be written
+                write: if blocked { WritePlan { per_call: 1, stall: None } } else { WritePlan::default() },
+                ..Default::default()
+            };
+            let out = if blocked { run_blocked_tail(&scn, &cfg2) } else { run(&scn, &cfg2) };
+            o.class(if blocked { "drop-with-disconnect-write-blocked" } else { "drop-with-disconnect-queued" });
+            if let Some(mut f) = failure_for(&out, &["C14/"]) {
+                f.msg = format!("user DISCONNECT pending when the context was dropped: {}", f.msg);
+                o.fail = Some(f);
             }
         }
         // dropping the context after run() returned, for several terminating causes
@@ -780,7 +842,7 @@ impl Property for C14 {
             events.push(Ev::Terminate(cause.clone()));
             events.push(Ev::Settle);
             events.push(Ev::DropCtx);
-            let scn = Scenario { receive_max: case.receive_max, max_packet_size: None, id_offset: case.id_offset, events };
+            let scn = Scenario { receive_max: case.receive_max, max_packet_size: case.max_packet_size, id_offset: case.id_offset, events };
             let out = run(&scn, &cfg);
             o.class(format!("drop-after-run-returned-{}", cause_name(&cause)));
             if let Some(mut f) = failure_for(&out, &["C14/"]) {
@@ -792,6 +854,11 @@ impl Property for C14 {
         o.classes.dedup();
         o
     }
+}
+
+/// like `run`, but the writer stops accepting bytes right before the last three events
+fn run_blocked_tail(scn: &Scenario, cfg: &SimCfg) -> SimOut {
+    run_with_block(scn, cfg, scn.events.len().saturating_sub(4))
 }
 
 // ---------------------------------------------------------------------------------
@@ -839,9 +906,10 @@ impl Property for C15 {
                 events: evs.into_iter().flatten().collect(),
             })
             .boxed();
-        let s = (s, id_offset(2))
-            .prop_map(|(mut s, o)| {
+        let s = (s, id_offset(2), max_pkt())
+            .prop_map(|(mut s, o, m)| {
                 s.id_offset = o;
+                s.max_packet_size = m;
                 s
             })
             .boxed();
@@ -929,7 +997,7 @@ fn cause() -> BoxedStrategy<Cause> {
             d.reason_string = Some(gen::make_string(n, 0, 1));
             Cause::UserDisconnect(d)
         }),
-        4 => (gen::server_disconnect(false, prop::sample::select(rc::SERVER_DISCONNECT_REASONS).boxed()), any::<bool>()).prop_map(|(d, s)| Cause::ServerDisconnect(d, s)),
+        4 => (gen::server_disconnect(false, prop::sample::select(rc::DISCONNECT_REASONS).boxed()), any::<bool>()).prop_map(|(d, s)| Cause::ServerDisconnect(d, s)),
         2 => (gen::server_disconnect(false, Just(0u8).boxed()), any::<bool>()).prop_map(|(d, s)| Cause::ServerDisconnect(d, s)),
         2 => Just(Cause::Eof),
         1 => Just(Cause::ReadErr),
@@ -1169,7 +1237,7 @@ impl Property for C16 {
         // DropStream makes "what was lost" depend on buffering: remove it here
         let base = Scenario {
             receive_max: None,
-            max_packet_size: None,
+            max_packet_size: case.scn.max_packet_size,
             id_offset: case.scn.id_offset,
             events: case.scn.events.iter().filter(|e| !matches!(e, Ev::DropStream { .. })).cloned().collect(),
         };
@@ -1252,6 +1320,8 @@ fn proj_diff(a: &Projections, b: &Projections) -> &'static str {
         "stream-items"
     } else if a.stream_ended != b.stream_ended {
         "stream-end"
+    } else if a.unattributed != b.unattributed || a.malformed != b.malformed {
+        "stray-or-malformed-client-packets"
     } else {
         "run-result"
     }
@@ -1264,6 +1334,7 @@ fn proj_part(p: &Projections, what: &str) -> String {
         "acknowledgements-written" => format!("{:?}", p.client_acks),
         "stream-items" => format!("{:?}", p.stream_items.iter().map(|(o, v)| (*o, v.iter().map(|m| m.topic.clone()).collect::<Vec<_>>())).collect::<Vec<_>>()),
         "stream-end" => format!("{:?}", p.stream_ended),
+        "stray-or-malformed-client-packets" => format!("unattributed {} malformed {}", p.unattributed, p.malformed),
         _ => format!("{:?}", p.run_result),
     }
 }
